@@ -191,7 +191,15 @@ def run_fifo(cfg, stim, backend="fast", clause_prefix="C13", trace=None, max_cyc
     if fsm_sig is not None:
         pump_code = dut.fifo.fsm.encoding.get("PUMP_PRECONVERTER")
     pumped = False
-    occ = {}                 # port address -> cycle of the write that filled it (present = holds an unread word)
+    early_bypass = False
+    dram_code = bypass_code = None
+    pcs_valid = None
+    pcs_prev = 0
+    if fsm_sig is not None:
+        dram_code = dut.fifo.fsm.encoding.get("DRAM")
+        bypass_code = dut.fifo.fsm.encoding.get("BYPASS")
+        pcs_valid = dut.fifo.pre_converter.source.valid
+    occ = {}                # port address -> cycle of the write that filled it (present = holds an unread word)
     logpos = 0
     wraps_w = wraps_r = 0
     last_wa = last_ra = None
@@ -218,10 +226,13 @@ def run_fifo(cfg, stim, backend="fast", clause_prefix="C13", trace=None, max_cyc
             if s != fsm_prev:
                 if fsm_prev is not None:
                     fsm_changes += 1
+                if fsm_prev == dram_code and s == bypass_code and pcs_prev:
+                    early_bypass = True  # left DRAM mode while a complete DRAM word waited at the pre-converter's output (key suffix only)
                 fsm_prev = s
                 fsm_seen.add(s)
                 if s == pump_code:
                     pumped = True       # classification of findings only (key suffix), never a verdict
+            pcs_prev = sim.get(pcs_valid)
         if trace is not None:
             trace.append([sim.get(x) for x in trace_signals(dut)])
         w = slave.cycle(sim, t)
@@ -289,10 +300,9 @@ def run_fifo(cfg, stim, backend="fast", clause_prefix="C13", trace=None, max_cyc
                         rel = "input word #%d (%d words skipped)" % (j, j - k)
                     fs.append(dict(clause=P + ".stream_data", key=tag, what="cycle %d: output word #%d = 0x%x, input word #%d = 0x%x: the output shows %s" % (tg, k, d, k, exp, rel)))
         if fs:
-            if pumped:
-                # the mode FSM went through its partial-word flush (PUMP_PRECONVERTER) before the first failure
-                for f in fs:
-                    f["key"] += "/pump"
+            # what the mode FSM did before the first failure; these signatures only qualify the key
+            for f in fs:
+                f["key"] += sig_suffix(early_bypass, pumped)
             break
         sim.step(w)
         t += 1
@@ -304,7 +314,7 @@ def run_fifo(cfg, stim, backend="fast", clause_prefix="C13", trace=None, max_cyc
         else:
             quiet = 0
     if not fs and not done:
-        fs.append(dict(clause=P + ".hang", key=tag + ("/pump" if pumped else ""), what="after %d cycles (both sides permanently willing since cycle %d): %d/%d words accepted from the producer, %d/%d delivered to the consumer; level=%d, %d memory locations hold unread words, slave idle=%s%s" % (
+        fs.append(dict(clause=P + ".hang", key=tag + sig_suffix(early_bypass, pumped), what="after %d cycles (both sides permanently willing since cycle %d): %d/%d words accepted from the producer, %d/%d delivered to the consumer; level=%d, %d memory locations hold unread words, slave idle=%s%s" % (
             t, max(stim["prod"].get("horizon", 0), stim["cons"].get("horizon", 0)), prod.i, n, len(cons.got), n, sim.get(level_sig), len(occ), slave.idle(),
             (", fsm state %s" % state_name(dut, sim.get(fsm_sig))) if fsm_sig is not None else "")))
     r = FifoRun()
@@ -313,8 +323,14 @@ def run_fifo(cfg, stim, backend="fast", clause_prefix="C13", trace=None, max_cyc
     r.wraps_w, r.wraps_r, r.fsm_changes, r.max_level, r.max_occ = wraps_w, wraps_r, fsm_changes, max_level, max_occ
     r.fsm_seen = sorted(state_name(dut, s) for s in fsm_seen)
     r.read_empty, r.nwr, r.nrd, r.left_in_memory = read_empty, nwr, nrd, len(occ)
-    r.pumped = pumped
+    r.pumped, r.early_bypass = pumped, early_bypass
     return r
+
+
+def sig_suffix(early_bypass, pumped):
+    """/early_bypass: the FSM went from DRAM to BYPASS in a cycle after which a complete DRAM word still waited at the
+    pre-converter's output; /pump: the FSM entered its partial-word flush (PUMP_PRECONVERTER)."""
+    return ("/early_bypass" if early_bypass else "") + ("/pump" if pumped else "")
 
 
 def state_name(dut, s):
@@ -352,6 +368,8 @@ def classify(run):
             cl.append("state_" + s)
     if run.pumped:
         cl.append("partial_word_flush_entered")
+    if run.early_bypass:
+        cl.append("left_dram_mode_with_word_waiting_at_pre_converter")
     if run.nwr == 0:
         cl.append("memory_never_used")
     if run.stim["n"] % ratio_of(cfg):
